@@ -68,6 +68,17 @@ def ident (s : Str) : Option (Str × Str) :=
   let w := s.takeWhile fun c => !isDelim c
   if w = [] then none else some (w, s.drop w.length)
 
+/-- an unquoted property name made of digits is a numeric literal: it names the property
+`String(Number(literal))` (`007` is not the key "007"; a literal with a leading zero is rejected, as in a module) -/
+def propKey (k : Str) : Option Str :=
+  if k.all Char.isDigit then
+    match k with
+    | '0' :: _ :: _ => none
+    | _ =>
+      let n := k.foldl (fun a c => a * 10 + (c.toNat - '0'.toNat)) 0
+      if n < 9007199254740992 then some (Nat.repr n).toList else none   -- beyond 2^53 the name is rounded: not in the fragment
+  else some k
+
 def expect (c : Char) (s : Str) : Option Str :=
   match ws s with
   | d :: rest => if d = c then some rest else none
@@ -188,7 +199,9 @@ def pFields : Nat → List (TsKey × Ts) → Str → Option (List (TsKey × Ts) 
     | r =>
       let key : Option (Str × Str) := match r with
         | '"' :: _ => strLit r
-        | _ => ident r
+        | _ => match ident r with
+          | some (k, r') => (propKey k).map fun k' => (k', r')
+          | none => none
       match key with
       | none => none
       | some (k, r1) =>
